@@ -39,6 +39,41 @@ func isLow32(v ssa.Value, src ssa.Value) bool {
 
 func stripConvTo(v ssa.Value) ssa.Value { return v }
 
+// pathLayoutProblem: v must be bits<<32 | lowmask(length)<<(height-length), the path word layout NewPath builds;
+// returns "" when it is.
+func pathLayoutProblem(fa *FA, v ssa.Value, isBits func(ssa.Value) bool, length, height Lin) string {
+	a, b, ok := asBin(v, token.OR)
+	if !ok {
+		return "result is not bits<<32 | mask"
+	}
+	bad := ""
+	var bitsT, maskT ssa.Value
+	for _, s := range []ssa.Value{a, b} {
+		if x, cc, ok := asBinConst(s, token.SHL); ok && isBits(x) {
+			bitsT = s
+			if cc != 32 {
+				bad = fmt.Sprintf("searching bits are shifted by %d, the layout needs 32", cc)
+			}
+		} else {
+			maskT = s
+		}
+	}
+	if bitsT == nil || maskT == nil {
+		return "result is not searchingBits<<32 | mask"
+	}
+	m, sh, ok := asBin(maskT, token.SHL)
+	if !ok {
+		return "mask is not Mask[length] << (height-length)"
+	}
+	if ms, ok := fa.MaskOf(m); !ok || ms.Kind != "low" || !ms.N.Eq(length) {
+		bad = "mask bits are not the low `length` bits (bitmap.Mask[length])"
+	}
+	if !fa.Lin(sh).Eq(height.Sub(length)) {
+		bad = "mask is shifted by " + fa.Lin(sh).String() + ", left alignment needs height-length"
+	}
+	return bad
+}
+
 func runC10(c *Ctx, w *World, r *Report) {
 	names := []string{"bmtree.NewPath", "bmtree.PathBits", "bmtree.PathMask", "bmtree.PathLen", "bmtree.PathHeight", "bmtree.PathStr"}
 	fns, ok := requireFuncs(w, r, names...)
@@ -58,36 +93,8 @@ func runC10(c *Ctx, w *World, r *Report) {
 		fa := w.FA(fn)
 		bad := ""
 		for _, ret := range returnsOf(fn) {
-			a, b, ok := asBin(ret.Results[0], token.OR)
-			if !ok {
-				bad = "result is not bits<<32 | mask"
-				continue
-			}
-			var bitsT, maskT ssa.Value
-			for _, s := range []ssa.Value{a, b} {
-				if x, cc, ok := asBinConst(s, token.SHL); ok && x == ssa.Value(fn.Params[0]) {
-					bitsT = s
-					if cc != 32 {
-						bad = fmt.Sprintf("searching bits are shifted by %d, the layout needs 32", cc)
-					}
-				} else {
-					maskT = s
-				}
-			}
-			if bitsT == nil || maskT == nil {
-				bad = "result is not searchingBits<<32 | mask"
-				continue
-			}
-			m, sh, ok := asBin(maskT, token.SHL)
-			if !ok {
-				bad = "mask is not Mask[length] << (height-length)"
-				continue
-			}
-			if ms, ok := fa.MaskOf(m); !ok || ms.Kind != "low" || !ms.N.Eq(fa.Lin(fn.Params[1])) {
-				bad = "mask bits are not the low `length` bits (bitmap.Mask[length])"
-			}
-			if !fa.Lin(sh).Eq(fa.Lin(fn.Params[2]).Sub(fa.Lin(fn.Params[1]))) {
-				bad = "mask is shifted by " + fa.Lin(sh).String() + ", left alignment needs height-length"
+			if why := pathLayoutProblem(fa, ret.Results[0], func(x ssa.Value) bool { return x == ssa.Value(fn.Params[0]) }, fa.Lin(fn.Params[1]), fa.Lin(fn.Params[2])); why != "" {
+				bad = why
 			}
 		}
 		chk(n, bad, "searchingBits<<32 | Mask[length]<<(height-length)")
@@ -168,10 +175,27 @@ func runC10(c *Ctx, w *World, r *Report) {
 				// under PathLen == 0
 				okc := false
 				for _, cd := range fa.Conds(ret.Block()) {
-					if bo, ok := cd.V.(*ssa.BinOp); ok && bo.Op == token.EQL && cd.Pol && isCallOf(bo.X, "bmtree.PathLen") {
-						if k, ok := constInt64(bo.Y); ok && k == 0 {
-							okc = true
+					// PathLen == 0 on its true edge, PathLen != 0 on its false edge, either operand order
+					if bo, ok := cd.V.(*ssa.BinOp); ok && (bo.Op == token.EQL && cd.Pol || bo.Op == token.NEQ && !cd.Pol) {
+						for _, side := range [2][2]ssa.Value{{bo.X, bo.Y}, {bo.Y, bo.X}} {
+							if k, ok := constInt64(stripConv(side[1])); ok && k == 0 && isCallOf(side[0], "bmtree.PathLen") {
+								okc = true
+							}
 						}
+					}
+				}
+				// (PathLen is a popcount, never negative: <= 0 and < 1 say the same)
+				if plc := func() ssa.Value {
+					var out ssa.Value
+					eachInstr(fn, func(ins ssa.Instruction) {
+						if v, ok := ins.(ssa.Value); ok && isCallOf(v, "bmtree.PathLen") && out == nil {
+							out = v
+						}
+					})
+					return out
+				}(); plc != nil && !okc {
+					if bd := fa.BoundsAt(ret.Block(), fa.Lin(plc)); bd.HasHi && bd.Hi <= 0 {
+						okc = true
 					}
 				}
 				if !okc {
